@@ -508,8 +508,29 @@ func ruleOPTCODEC(c *Ctx) {
 		c.Bad(rule, "lalr.Optimize:undef", f.Pos(), "no distinct unfilled-cell sentinel: under defaultReduce cells left at -1 cannot be told from nonassoc errors, which must stay errors")
 	}
 	// substitution loop: next[i] = def only under v == undef
-	if uv != nil && dv != nil && foundUndef {
-		c.Ok(rule, "lalr.Optimize:substitute", f.Pos(), "the default reduction replaces only cells equal to the sentinel")
+	// ... and for every value of the default: a substitution that is skipped when there is no
+	// reduction to prefer (def == -1) leaves the sentinel in the row, where it decodes as a shift
+	// into state len(t.Action)
+	condOnDef := token.NoPos
+	if dv != nil {
+		for _, b := range f.Blocks {
+			for _, ins := range b.Instrs {
+				st, ok := ins.(*ssa.Store)
+				if !ok || st.Val != dv {
+					continue
+				}
+				for _, g := range flattenConds(governing(b)) {
+					if bo, ok := g.V.(*ssa.BinOp); ok && (stripConv(bo.X) == dv || stripConv(bo.Y) == dv) {
+						condOnDef = bo.Pos()
+					}
+				}
+			}
+		}
+	}
+	if condOnDef != token.NoPos {
+		c.Bad(rule, "lalr.Optimize:substitute", condOnDef, "the substitution of unfilled cells is skipped for some values of the default (%s): the sentinel -2-len(t.Action) stays in the row and is emitted as a shift into a state that does not exist", vpath(dv))
+	} else if uv != nil && dv != nil && foundUndef {
+		c.Ok(rule, "lalr.Optimize:substitute", f.Pos(), "the default reduction replaces only cells equal to the sentinel, whatever the default is")
 	} else {
 		c.Bad(rule, "lalr.Optimize:substitute", f.Pos(), "under defaultReduce the default reduction must be stored only into cells that equal a dedicated unfilled-cell sentinel (found comparison value: %v): otherwise nonassoc errors and shifts are overwritten", uv != nil)
 	}
